@@ -417,6 +417,88 @@ pub fn client_preambles(histories: &[&str]) -> Vec<Result<(String, u64, String, 
     out
 }
 
+/// The REAL server's reading of a settings frame: for every spelling of the announcement (line order, CRLF, spaces,
+/// duplicate keys, values containing '=', other lines with non-UTF-8 bytes) it pushes its scheme exactly when the
+/// announced md5 (as the text format defines it: last `padding-md5` line, trimmed) differs from its own.
+fn server_reads_settings(rep: &mut Report) {
+    let srv_text = scheme(200);
+    let srv_md5 = format!("{:x}", md5::compute(srv_text.as_bytes()));
+    let other = "0123456789abcdef0123456789abcdef".to_string();
+    let mut cases: Vec<(String, Vec<u8>, bool)> = vec![];
+    for (mn, m, differs) in [("equal", srv_md5.clone(), false), ("different", other.clone(), true)] {
+        let mk = |name: &str, body: Vec<u8>| (format!("{name}, announced md5 {mn}"), body, differs);
+        cases.push(mk("plain", format!("v=2\nclient=x\npadding-md5={m}").into_bytes()));
+        cases.push(mk("md5 first", format!("padding-md5={m}\nv=2\nclient=x").into_bytes()));
+        cases.push(mk("CRLF", format!("v=2\r\nclient=x\r\npadding-md5={m}\r\n").into_bytes()));
+        cases.push(mk("spaces", format!("v = 2\nclient = x\npadding-md5 = {m} ").into_bytes()));
+        cases.push(mk("trailing newline", format!("v=2\nclient=x\npadding-md5={m}\n").into_bytes()));
+        cases.push(mk("value containing '='", format!("v=2\nclient=a=b=c\npadding-md5={m}").into_bytes()));
+        cases.push(mk("empty value elsewhere", format!("v=2\nclient=\npadding-md5={m}").into_bytes()));
+        cases.push(mk("line without '='", format!("v=2\nhello\npadding-md5={m}").into_bytes()));
+        let mut b = b"v=2\nclient=caf\xe9-tls/1.0\npadding-md5=".to_vec();
+        b.extend_from_slice(m.as_bytes());
+        cases.push(mk("non-UTF-8 byte in another line", b));
+        let mut b = b"v=2\nx=\xff\xfe\xc3\npadding-md5=".to_vec();
+        b.extend_from_slice(m.as_bytes());
+        b.extend_from_slice(b"\nclient=x");
+        cases.push(mk("several invalid bytes in another line", b));
+        cases.push(mk("many other lines", format!("{}padding-md5={m}\nv=2", (0..50).map(|i| format!("k{i}=v{i}\n")).collect::<String>()).into_bytes()));
+    }
+    // duplicate announcement: the last line counts
+    cases.push(("duplicate padding-md5, last one equal".into(), format!("v=2\npadding-md5={other}\npadding-md5={srv_md5}").into_bytes(), false));
+    cases.push(("duplicate padding-md5, last one different".into(), format!("v=2\npadding-md5={srv_md5}\npadding-md5={other}").into_bytes(), true));
+    for (name, body, differs) in cases {
+        rep.case(Some(&format!("server reads settings: {name}")));
+        let slot: Arc<Mutex<Option<(usize, bool)>>> = Arc::new(Mutex::new(None));
+        let slot2 = slot.clone();
+        let body2 = body.clone();
+        let text2 = srv_text.clone();
+        let sc = scenario(move || {
+            let slot2 = slot2.clone();
+            let body2 = body2.clone();
+            let text2 = text2.clone();
+            async move {
+                let link = peer_link(PipeCfg::new("c2s"), PipeCfg::new("s2c"));
+                let _side = start_server_session(link.sess_r, link.sess_w, padding(&text2), None);
+                let mut peer = link.peer;
+                peer.send(SETTINGS, 0, &body2);
+                settle().await;
+                tokio::time::sleep(Duration::from_millis(20)).await;
+                let mut pushes = 0usize;
+                let mut pushed_ok = true;
+                let mut srv_settings = false;
+                while let Ok(Some(f)) = tokio::time::timeout(Duration::from_millis(50), peer.next_frame()).await {
+                    if f.cmd == UPDATE_PADDING {
+                        pushes += 1;
+                        pushed_ok &= f.data == text2.as_bytes();
+                    }
+                    if f.cmd == SERVER_SETTINGS {
+                        srv_settings = true;
+                    }
+                }
+                *slot2.lock().unwrap() = Some((pushes + if pushed_ok { 0 } else { 100 }, srv_settings));
+                Outcome::default()
+            }
+        });
+        let rec = run_exec(&sc, &ExecCfg::default(), &[], 0);
+        let replay = json!({"engine": "IX-server-settings", "case": name});
+        if let Some(v) = rec.outcome.violations.first() {
+            rep.violation("C19:session-disturbed", &format!("server reads settings ({name}): {}", v.detail), replay);
+            continue;
+        }
+        let Some((pushes, srv_settings)) = slot.lock().unwrap().take() else { continue };
+        if pushes >= 100 {
+            rep.violation("C19:pushed-text-is-not-the-servers-scheme", &format!("server reads settings ({name}): the pushed text is not the server's scheme text"), replay);
+        } else if differs && pushes != 1 {
+            rep.violation("C19:server-does-not-push-although-schemes-differ", &format!("server reads settings ({name}): {pushes} pushes for an announcement that differs from the server's md5 (server settings answered: {srv_settings})"), replay);
+        } else if !differs && pushes != 0 {
+            rep.violation("C19:scheme-pushed-again", &format!("server reads settings ({name}): the real server pushed {pushes} time(s) although the client announced its md5"), replay);
+        } else if !srv_settings {
+            rep.violation("C19:session-disturbed", &format!("server reads settings ({name}): a v=2 announcement got no server settings in answer"), replay);
+        }
+    }
+}
+
 fn expected_size(s: &Option<String>) -> Option<usize> {
     // None = built-in default scheme: not one of the fixed-size schemes
     s.as_ref().and_then(|t| if t == &scheme(200) || t == &scheme_b_retyped() || t == &real_server_text('P') { Some(200) } else if t == &real_server_text('p') { Some(300) } else if t == &scheme(300) { Some(300) } else if t == &scheme(150) { Some(150) } else { None })
@@ -611,6 +693,7 @@ pub fn run(tier: Tier) -> i32 {
         }
     }
     session_grid(&mut rep, thorough);
+    server_reads_settings(&mut rep);
     rep.sections.insert("bx".into(), json!({"histories": n, "depth": depth, "alphabet": "T (touch default) | Z (client constructed with a custom scheme), B b C D (session + push of scheme B / B retyped (same lines, other text) / C / the built-in default text), X (session + unparsable push), P p (real client session against a REAL server session whose scheme text ends in whitespace), R q r d (client request against a scripted TLS server using B / B retyped / C / the built-in default)"}));
-    rep.finish("BX over process histories, one fresh child process each: every history of length <= d over {touch default, session with a push of scheme B / C / an unparsable scheme followed by shaped writes, client request through the real Client against a scripted TLS server}; write sizes after a push must be those of the pushed scheme, sessions created afterwards must start with it and announce its md5, an unparsable push changes nothing; plus an exhaustive per-session grid (stop of the announced scheme x stop of the pushed scheme x packets sent before the push) comparing every packet's write sizes with the reference shaper; non-trivial = distinct history / grid case")
+    rep.finish("BX over process histories, one fresh child process each: every history of length <= d over {touch default, session with a push of scheme B / C / an unparsable scheme followed by shaped writes, client request through the real Client against a scripted TLS server}; write sizes after a push must be those of the pushed scheme, sessions created afterwards must start with it and announce its md5, an unparsable push changes nothing; plus the real server's reading of 24 spellings of the settings frame (push exactly when the announced md5 differs); plus an exhaustive per-session grid (stop of the announced scheme x stop of the pushed scheme x packets sent before the push) comparing every packet's write sizes with the reference shaper; non-trivial = distinct history / grid case")
 }
